@@ -1,4 +1,5 @@
 import CalicoVerif.Proofs.C17a
+set_option linter.unusedSimpArgs false
 namespace CalicoVerif.C17
 
 /-- The candidates `recalculateDesiredKernelRoute` considers for a destination: targets for that
@@ -43,88 +44,187 @@ theorem best_isSome (t : RT) (cidr : String) (x : Want × Nat) (hx : x ∈ t.can
       | some b => simp only [pick]; split <;> rfl
   exact key _ _ (Or.inr (List.ne_nil_of_mem hx))
 
-/-! ### unowned_routes_unchanged -/
+/-! ### Frames of the two passes -/
 
-def SameWants (a b : RT) : Prop := a.wants = b.wants ∧ a.ifaces = b.ifaces ∧ a.defProto = b.defProto
+/-- The inputs of conflict resolution and ownership (nothing in `Apply`'s passes changes them). -/
+def SameWants (a b : RT) : Prop :=
+  a.wants = b.wants ∧ a.ifaces = b.ifaces ∧ a.defProto = b.defProto ∧ a.pol = b.pol
 
 theorem desired_congr {a b : RT} (h : SameWants a b) (c : String) : a.desired c = b.desired c := by
   unfold RT.desired RT.best
-  rw [h.1, h.2.1, h.2.2]
+  rw [h.1, h.2.1, h.2.2.1]
 
-theorem deleteStep_inv (c : String) (w0 : W) :
-    ∀ (dels : List String) (acc : W × Bool), (∀ k ∈ dels, k ≠ c) →
-      acc.1.K.get c = w0.K.get c ∧ SameWants acc.1.t w0.t →
-      let r := dels.foldl (fun (acc : W × Bool) k =>
-        let (w, err) := acc
-        if w.f.del then ({ w with f := { w.f with del := false } }, true)
-        else ({ w with K := w.K.erase k, t := { w.t with dp := w.t.dp.erase k } }, err)) acc
-      r.1.K.get c = w0.K.get c ∧ SameWants r.1.t w0.t := by
-  intro dels
-  induction dels with
-  | nil => intro acc _ h; exact h
-  | cons k ks ih =>
-    intro acc hne h
-    simp only [List.foldl]
-    apply ih _ (fun k' hk' => hne k' (List.mem_cons_of_mem _ hk'))
-    obtain ⟨w, err⟩ := acc
-    dsimp only at h ⊢
-    split
-    · exact h
-    · refine ⟨?_, h.2⟩
-      dsimp only
-      rw [Map.get_erase]
-      have : c ≠ k := fun e => hne k List.mem_cons_self e.symm
-      simp [this, h.1]
+theorem owns_congr {a b : RT} (h : SameWants a b) (r : KRoute) : a.owns r = b.owns r := by
+  unfold RT.owns RT.ifaceName
+  rw [h.2.1, h.2.2.2]
 
-/-- The deletion pass only removes routes that are in Felix's dataplane view. -/
-theorem deletePass_other (w : W) (c : String) (hc : c ∉ w.t.dp.keys) :
-    w.deletePass.1.K.get c = w.K.get c ∧ SameWants w.deletePass.1.t w.t := by
-  unfold W.deletePass
-  apply deleteStep_inv c w _ (w, false)
-  · intro k hk
-    have := List.mem_mergeSort.1 hk
-    rw [List.mem_eraseDups] at this
-    have hk' := (List.mem_filter.1 this).1
-    rintro rfl; exact hc hk'
-  · exact ⟨rfl, rfl, rfl, rfl⟩
+theorem delStep_ok (acc : W × Bool) (k : String) (h : (W.delStep acc k).2 = false) :
+    acc.2 = false ∧
+    W.delStep acc k = ({ acc.1 with K := acc.1.K.erase k, t := { acc.1.t with dp := acc.1.t.dp.erase k } }, acc.2) := by
+  unfold W.delStep at h ⊢
+  by_cases hd : acc.1.f.del = true
+  · simp [hd] at h
+  · simp only [hd, if_false] at h ⊢
+    exact ⟨h, rfl⟩
 
-theorem updateStep_inv (c : String) (w0 : W) (hd : w0.t.desired c = none) :
-    ∀ (ups : List String) (acc : W × Bool),
-      acc.1.K.get c = w0.K.get c ∧ SameWants acc.1.t w0.t →
-      let r := ups.foldl (fun (acc : W × Bool) k =>
-        let (w, err) := acc
-        match w.t.desired k with
-        | none => (w, err)
-        | some r =>
-          if w.f.replace then ({ w with f := { w.f with replace := false } }, true)
-          else ({ w with K := w.K.set k r, t := { w.t with dp := w.t.dp.set k r } }, err)) acc
-      r.1.K.get c = w0.K.get c ∧ SameWants r.1.t w0.t := by
-  intro ups
-  induction ups with
-  | nil => intro acc h; exact h
-  | cons k ks ih =>
+/-- Effect of the deletion pass when it reports no error: every listed key is removed from the kernel and
+from the view; nothing else changes (apart from failure flags). -/
+theorem delFold_ok : ∀ (L : List String) (acc : W × Bool), (L.foldl W.delStep acc).2 = false →
+    acc.2 = false ∧
+    (L.foldl W.delStep acc).1.K = L.foldl (fun m k => m.erase k) acc.1.K ∧
+    (L.foldl W.delStep acc).1.t.dp = L.foldl (fun m k => m.erase k) acc.1.t.dp ∧
+    SameWants (L.foldl W.delStep acc).1.t acc.1.t ∧ (L.foldl W.delStep acc).1.t.rescan = acc.1.t.rescan ∧
+    (L.foldl W.delStep acc).1.kif = acc.1.kif ∧ (L.foldl W.delStep acc).1.t.fullResync = acc.1.t.fullResync := by
+  intro L
+  induction L with
+  | nil => intro acc h; exact ⟨h, rfl, rfl, ⟨rfl, rfl, rfl, rfl⟩, rfl, rfl, rfl⟩
+  | cons k L ih =>
     intro acc h
-    simp only [List.foldl]
-    apply ih
-    obtain ⟨w, err⟩ := acc
-    dsimp only at h ⊢
-    split
-    · exact h
-    · rename_i r hr
-      split
-      · exact h
-      · refine ⟨?_, h.2⟩
-        dsimp only
-        rw [Map.get_set]
-        have : c ≠ k := by
-          rintro rfl
-          rw [desired_congr h.2 c, hd] at hr; simp at hr
-        simp [this, h.1]
+    simp only [List.foldl] at h ⊢
+    obtain ⟨h1, h2, h3, h4, h5, h6, h7⟩ := ih (W.delStep acc k) h
+    obtain ⟨ha, heq⟩ := delStep_ok acc k h1
+    have e1 : (W.delStep acc k).1.K = acc.1.K.erase k := by rw [heq]
+    have e2 : (W.delStep acc k).1.t.dp = acc.1.t.dp.erase k := by rw [heq]
+    have e3 : SameWants (W.delStep acc k).1.t acc.1.t := by rw [heq]; exact ⟨rfl, rfl, rfl, rfl⟩
+    have e4 : (W.delStep acc k).1.t.rescan = acc.1.t.rescan := by rw [heq]
+    have e5 : (W.delStep acc k).1.kif = acc.1.kif := by rw [heq]
+    have e6 : (W.delStep acc k).1.t.fullResync = acc.1.t.fullResync := by rw [heq]
+    rw [e1] at h2; rw [e2] at h3
+    exact ⟨ha, h2, h3, ⟨h4.1.trans e3.1, h4.2.1.trans e3.2.1, h4.2.2.1.trans e3.2.2.1, h4.2.2.2.trans e3.2.2.2⟩,
+      h5.trans e4, h6.trans e5, h7.trans e6⟩
 
-/-- The update pass only writes routes for destinations Felix wants. -/
-theorem updatePass_other (w : W) (c : String) (hd : w.t.desired c = none) :
-    w.updatePass.1.K.get c = w.K.get c ∧ SameWants w.updatePass.1.t w.t := by
-  unfold W.updatePass
-  exact updateStep_inv c w hd _ (w, false) ⟨rfl, rfl, rfl, rfl⟩
+theorem foldl_erase_get {α : Type} : ∀ (L : List String) (m : Map α) (c : String),
+    (L.foldl (fun m k => m.erase k) m).get c = if c ∈ L then none else m.get c := by
+  intro L
+  induction L with
+  | nil => intro m c; simp
+  | cons k L ih =>
+    intro m c
+    simp only [List.foldl, ih, Map.get_erase, List.mem_cons]
+    by_cases h1 : c ∈ L
+    · simp [h1]
+    · by_cases h2 : c = k <;> simp [h1, h2]
+
+theorem sAdd_ne_nil (s : List String) (x : String) : sAdd s x ≠ [] := by
+  unfold sAdd; split
+  · rename_i hm; intro e; rw [e] at hm; simp at hm
+  · simp
+
+theorem updStep_ok (acc : W × Bool) (k : String) (h : (W.updStep acc k).2 = false)
+    (hr : (W.updStep acc k).1.t.rescan = []) :
+    acc.2 = false ∧ acc.1.t.rescan = [] ∧
+    ((acc.1.t.desired k = none ∧ W.updStep acc k = acc) ∨
+     (∃ r, acc.1.t.desired k = some r ∧
+       W.updStep acc k = ({ acc.1 with K := acc.1.K.set k r, t := { acc.1.t with dp := acc.1.t.dp.set k r } }, acc.2))) := by
+  unfold W.updStep at h hr ⊢
+  cases hd : acc.1.t.desired k with
+  | none => rw [hd] at h hr; exact ⟨h, hr, Or.inl ⟨rfl, rfl⟩⟩
+  | some r =>
+    rw [hd] at h hr
+    dsimp only at h hr ⊢
+    by_cases hf : acc.1.f.replace = true
+    · rw [if_pos hf] at h hr
+      exfalso
+      cases hn : acc.1.t.ifaceName r.ifindex with
+      | none => rw [hn] at h; simp at h
+      | some name =>
+        rw [hn] at h hr
+        dsimp only at h hr
+        cases hk : acc.1.kif.get name with
+        | none => rw [hk] at hr; exact sAdd_ne_nil _ _ hr
+        | some ki =>
+          rw [hk] at h hr
+          dsimp only at h hr
+          by_cases hu : ki.up = true
+          · rw [if_pos hu] at h; simp at h
+          · rw [if_neg hu] at hr; exact sAdd_ne_nil _ _ hr
+    · rw [if_neg hf] at h hr ⊢
+      exact ⟨h, hr, Or.inr ⟨r, rfl, rfl⟩⟩
+
+/-- Effect of the update pass when it reports no error and queues no interface. -/
+theorem updFold_ok : ∀ (L : List String) (acc : W × Bool), (L.foldl W.updStep acc).2 = false →
+    (L.foldl W.updStep acc).1.t.rescan = [] →
+    acc.2 = false ∧ acc.1.t.rescan = [] ∧
+    (∀ c, (L.foldl W.updStep acc).1.K.get c =
+      (if c ∈ L then (match acc.1.t.desired c with | some r => some r | none => acc.1.K.get c) else acc.1.K.get c)) ∧
+    (∀ c, (L.foldl W.updStep acc).1.t.dp.get c =
+      (if c ∈ L then (match acc.1.t.desired c with | some r => some r | none => acc.1.t.dp.get c) else acc.1.t.dp.get c)) ∧
+    SameWants (L.foldl W.updStep acc).1.t acc.1.t ∧ (L.foldl W.updStep acc).1.kif = acc.1.kif ∧
+    (L.foldl W.updStep acc).1.t.fullResync = acc.1.t.fullResync := by
+  intro L
+  induction L with
+  | nil => intro acc h hr; exact ⟨h, hr, fun c => by simp, fun c => by simp, ⟨rfl, rfl, rfl, rfl⟩, rfl, rfl⟩
+  | cons k L ih =>
+    intro acc h hr
+    simp only [List.foldl] at h hr ⊢
+    obtain ⟨h1, h1r, h2, h3, h4, h5, h6⟩ := ih (W.updStep acc k) h hr
+    obtain ⟨ha, har, hcase⟩ := updStep_ok acc k h1 h1r
+    rcases hcase with ⟨hd, heq⟩ | ⟨r, hd, heq⟩
+    · have e0 : ∀ c, (W.updStep acc k).1.t.desired c = acc.1.t.desired c := by intro c; rw [heq]
+      have e1 : (W.updStep acc k).1.K = acc.1.K := by rw [heq]
+      have e2 : (W.updStep acc k).1.t.dp = acc.1.t.dp := by rw [heq]
+      have e3 : (W.updStep acc k).1.t = acc.1.t := by rw [heq]
+      have e5 : (W.updStep acc k).1.kif = acc.1.kif := by rw [heq]
+      simp only [e0, e1] at h2
+      simp only [e0, e2] at h3
+      rw [e3] at h4 h6
+      rw [e5] at h5
+      refine ⟨ha, har, ?_, ?_, h4, h5, h6⟩
+      · intro c
+        rw [h2 c]
+        simp only [List.mem_cons]
+        by_cases hc : c ∈ L
+        · simp [hc]
+        · by_cases hck : c = k
+          · subst hck; simp [hc, hd]
+          · simp [hc, hck]
+      · intro c
+        rw [h3 c]
+        simp only [List.mem_cons]
+        by_cases hc : c ∈ L
+        · simp [hc]
+        · by_cases hck : c = k
+          · subst hck; simp [hc, hd]
+          · simp [hc, hck]
+    · have hsw : SameWants (W.updStep acc k).1.t acc.1.t := by rw [heq]; exact ⟨rfl, rfl, rfl, rfl⟩
+      have e0 : ∀ c, (W.updStep acc k).1.t.desired c = acc.1.t.desired c := fun c => desired_congr hsw c
+      have e1 : (W.updStep acc k).1.K = acc.1.K.set k r := by rw [heq]
+      have e2 : (W.updStep acc k).1.t.dp = acc.1.t.dp.set k r := by rw [heq]
+      have e5 : (W.updStep acc k).1.kif = acc.1.kif := by rw [heq]
+      have e6 : (W.updStep acc k).1.t.fullResync = acc.1.t.fullResync := by rw [heq]
+      simp only [e0, e1] at h2
+      simp only [e0, e2] at h3
+      refine ⟨ha, har, ?_, ?_, ⟨h4.1.trans hsw.1, h4.2.1.trans hsw.2.1, h4.2.2.1.trans hsw.2.2.1, h4.2.2.2.trans hsw.2.2.2⟩,
+        h5.trans e5, h6.trans e6⟩
+      · intro c
+        rw [h2 c]
+        simp only [List.mem_cons]
+        by_cases hc : c ∈ L
+        · simp only [hc, if_true, or_true]
+          cases hdc : acc.1.t.desired c with
+          | some r' => rfl
+          | none =>
+            simp only [Map.get_set]
+            by_cases hck : c = k
+            · subst hck; rw [hd] at hdc; simp at hdc
+            · simp [hck]
+        · by_cases hck : c = k
+          · subst hck; simp [hc, hd, Map.get_set]
+          · simp [hc, hck, Map.get_set]
+      · intro c
+        rw [h3 c]
+        simp only [List.mem_cons]
+        by_cases hc : c ∈ L
+        · simp only [hc, if_true, or_true]
+          cases hdc : acc.1.t.desired c with
+          | some r' => rfl
+          | none =>
+            simp only [Map.get_set]
+            by_cases hck : c = k
+            · subst hck; rw [hd] at hdc; simp at hdc
+            · simp [hck]
+        · by_cases hck : c = k
+          · subst hck; simp [hc, hd, Map.get_set]
+          · simp [hc, hck, Map.get_set]
 
 end CalicoVerif.C17
